@@ -1,22 +1,75 @@
 ID = "C07"
 LEVEL = "model_checking"
-TECHNIQUE = "CBMC bounded symbolic execution of signal.c/signalfd.c + event.c + evmap.c against a sigaction/self-pipe/signalfd model"
+TECHNIQUE = ("CBMC bounded symbolic execution of the real signal.c / signalfd.c / evmap.c (signal maps) / event.c (event_add, event_del, event_base_loop, "
+             "event_signal_closure, event_base_free) against an executable sigaction / blocked-mask / self-pipe / signalfd model; "
+             "the I/O back end is a recording stand-in whose init/dealloc call sigfd_init_/evsig_init_/evsig_dealloc_ as the real back ends do")
 UNITS = ["signal.c", "signalfd.c", "evmap.c", "event.c"]
-FUNCTIONS = ["evsig_init_", "evsig_add", "evsig_del", "evsig_set_handler_", "evsig_restore_handler_", "evsig_handler", "evsig_cb", "evsig_dealloc_",
-             "sigfd_init_", "sigfd_add", "sigfd_del", "sigfd_cb", "evmap_signal_add_", "evmap_signal_del_", "evmap_signal_active_",
-             "event_signal_closure", "event_add_nolock_", "event_del_nolock_", "event_active_nolock_", "event_base_loop", "event_base_free_"]
-BOUNDS = ""
-OUT = ""
-TEXT = ""
-NOTE = ""
-ASSUMPTIONS = []
+FUNCTIONS = ["evsig_init_", "evsig_add", "evsig_del", "evsig_set_handler_", "evsig_ensure_saved_", "evsig_restore_handler_", "evsig_handler", "evsig_cb",
+             "evsig_dealloc_", "evsig_set_base_", "sigfd_init_", "sigfd_add", "sigfd_del", "sigfd_cb", "sigfd_free_sigevent",
+             "evmap_signal_add_", "evmap_signal_del_", "evmap_signal_active_", "evmap_io_add_", "evmap_io_del_", "evmap_io_active_",
+             "event_signal_closure", "event_persist_closure", "event_add_nolock_", "event_del_nolock_", "event_active_nolock_",
+             "event_process_active_single_queue", "event_base_loop", "event_base_free_", "event_assign", "event_new"]
+BOUNDS = ("2 signals (SIGUSR1, SIGUSR2), 3 persistent signal events (ev0, ev1 on A; ev2 on B), fixed histories of up to 14 steps from "
+          "{add, del, deliver (one raise), refuse (self-pipe EAGAIN for the next raise), loop iteration (EVLOOP_NONBLOCK), base free}; "
+          "symbolic: the dispositions (handler in {SIG_DFL, SIG_IGN, an application handler}, sa_flags, first word of sa_mask) installed before libevent "
+          "touches the signals; callback actions (delete own event / raise the signal again from inside the callback) fixed per obligation; "
+          "both mechanisms (self-pipe, signalfd); deliveries between library calls and inside callbacks only")
+OUT = ("asynchronous delivery at arbitrary instructions (handler vs. library races), real signal coalescing/queueing rules beyond the model, SIGCHLD semantics, "
+       "fork (C11), more than one event_base using signals, delivery counts/pipe refusals chosen by the solver (they are fixed per shape: symbolic pipe contents "
+       "make evsig_cb's per-signal tally symbolic for all 65 signals), the signal mask libevent leaves behind in signalfd mode (sigfd_del unblocks unconditionally; "
+       "the property speaks about handlers), real epoll/poll back ends underneath (C04/C05), evsig_add failure paths (malloc/sigaction failing)")
+TEXT = ("Signal callbacks run only with exactly EV_SIGNAL and their own signal number, only while the event is added (never after event_del returned, including "
+        "event_del from inside its own callback with calls still pending), at most as often per loop iteration as deliveries were noted by the mechanism and at "
+        "least once for a batch raised while the event was added; deleting the last event of a signal (from outside or inside a callback) and freeing the base "
+        "restore the full sigaction (handler, flags, mask) that was installed before the first add, for the self-pipe and the signalfd mechanism.")
+NOTE = ("Trusted: cbmc; env/sigmodel.h (~180 lines); env/evbase.h constructed base + virtual clock; env/event_struct_nounion.h (the three unions of "
+        "event_struct.h compiled as structs -- see that header for why and for the argument that no code relies on member overlap); typed evmap allocation "
+        "(env/typed_alloc.h). cbmc needs --max-field-sensitivity-array-size >= 1024 here (evsig_cb's ncaught[65] and signals[1024]).")
+ASSUMPTIONS = [
+    "kernel signal side behaves per env/sigmodel.h (sigaction get/set, blocked mask, bounded self-pipe with EAGAIN, signalfd pending flag per signal)",
+    "signals are raised only between library calls or from inside a signal event's callback",
+    "allocation and sigaction/signalfd calls do not fail",
+    "struct event / struct event_callback unions laid out as structs (env/event_struct_nounion.h)",
+]
 DESIGN_REF = "DESIGN.md §5 C07"
+
+USET = (["evsig_cb.%d:66" % i for i in range(7)] + ["evsig_dealloc_.%d:66" % i for i in range(3)] +
+        ["evmap_io_active_.0:3", "evmap_signal_active_.0:4", "event_base_loop.16:4", "event_signal_closure.6:4", "noted.0:5", "read.0:5",
+         "vp_sigfd_of.0:5", "vp_sigfd_for_sig.0:5", "kernel_reports.0:5", "evmap_signal_foreach_signal.0:34", "evmap_io_foreach_fd.0:66",
+         "evmap_signal_clear_.0:66"])
+
+SHAPES = [
+    ("basic", "ADD(0) DELIVER(A) LOOP DEL(0) FREE", []),
+    ("two_events_counts", "ADD(0) ADD(1) DELIVER(A) DELIVER(A) LOOP DEL(0) DELIVER(A) LOOP DEL(1) DELIVER(A) LOOP FREE", ["VP_WIT_BOTH", "VP_WIT_TWICE"]),
+    ("two_signals", "ADD(0) ADD(2) DELIVER(A) DELIVER(B) LOOP DEL(2) DELIVER(B) LOOP DEL(0)", []),
+    ("selfdel_pending_calls", "ADD(0) DELIVER(A) DELIVER(A) LOOP DELIVER(A) LOOP", ["VP_SELFDEL=1"]),
+    ("selfdel_other_stays", "ADD(0) ADD(1) DELIVER(A) LOOP DELIVER(A) LOOP DEL(1)", ["VP_SELFDEL=1"]),
+    ("redeliver_in_cb", "ADD(0) DELIVER(A) LOOP LOOP DEL(0)", ["VP_REDELIVER=1"]),
+    ("free_with_added", "ADD(0) ADD(2) DELIVER(A) FREE", []),
+    ("late_add_sees_pending", "ADD(1) DELIVER(A) ADD(0) LOOP DEL(0) DEL(1)", ["VP_WIT_BOTH"]),
+    ("readd", "ADD(0) DEL(0) DELIVER(A) ADD(0) DELIVER(A) LOOP DEL(0) FREE", []),
+    ("del_before_loop", "ADD(0) DELIVER(A) DEL(0) LOOP ADD(0) LOOP DEL(0)", []),
+]
+PIPE_ONLY = [
+    ("refused_byte", "ADD(0) REFUSE DELIVER(A) LOOP DELIVER(A) LOOP DEL(0)", []),
+    ("pipe_full", "ADD(0) DELIVER(A) DELIVER(A) DELIVER(A) DELIVER(A) DELIVER(A) LOOP DEL(0)", []),
+]
 
 def ob(name, steps, extra=(), **kw):
     d = dict(name=name, harness="C07_signals.c", entry="harness_signals", defines=["VP_STEPS=" + steps] + list(extra),
-             sources=["evmap.c"], unwind=4, timeout=600, mem_gb=6, desc=steps)
+             unwind=4, unwindset=USET, cbmc=["--max-field-sensitivity-array-size", "1100"], timeout=900, mem_gb=6,
+             desc="history [%s] %s" % (steps, " ".join(extra)))
     d.update(kw)
     return d
 
 def obligations(tier):
-    return [ob("pipe_basic", "ADD(0) DELIVER(A) LOOP DEL(0)")]
+    obs = []
+    for n, s, e in SHAPES + PIPE_ONLY:
+        obs.append(ob("pipe_" + n, s, e))
+    for n, s, e in SHAPES:
+        obs.append(ob("sigfd_" + n, s, e + ["VP_SIGFD"]))
+    if tier == "thorough":
+        for n, s, e in SHAPES[:4]:
+            obs.append(ob("pipe_" + n + "_ndebug", s, e, ndebug=True))
+            obs.append(ob("sigfd_" + n + "_ndebug", s, e + ["VP_SIGFD"], ndebug=True))
+    return obs
